@@ -30,6 +30,7 @@ var CmTemplates = []string{
 	"sub @ s @ {\n  esi;\n  @\n} @\n",
 	"penaltybox @ p @ {\n  @\n} @\n",
 	"ratecounter @ r @ {\n  @\n} @\n",
+	"sub @ s @ {\n  call t;\n  @\n} @\nsub t {\n  call u;\n}\nsub u {\n  set req.http.u = \"1\";\n  call s2;\n}\nsub s2 {\n  esi;\n}\nsub vcl_recv {\n  #FASTLY RECV\n  call s;\n}\n",
 	// statements (inside a subroutine)
 	"S@\nadd @ req.http.a @ = @ \"v\" @; @\n",
 	"S@\n{\n  esi;\n  @\n} @\n",
@@ -87,6 +88,12 @@ func cmRender(t string, at, at2, style int) (string, int) {
 		}
 		text := "c" + string(rune('0'+k%10)) + string(rune('a'+k/10))
 		switch {
+		case style == 3:
+			sb.WriteString("/**/") // the shortest block comment
+		case style == 4:
+			sb.WriteString("/** " + text + " **/") // asterisks next to the delimiters
+		case style == 5:
+			sb.WriteString("/*/ " + text + " /*/") // slashes next to the delimiters
 		case ownLine || endOfLine:
 			switch style {
 			case 0:
@@ -142,7 +149,7 @@ func VerifCommentsInert() {
 	t := CmTemplates[nondet.Param("T")]
 	n := cmCount(t)
 	at := nondet.IntRange("at", 0, n-1)
-	style := nondet.Choice("style", 3)
+	style := nondet.Choice("style", 6)
 	plain, _ := cmRender(t, -1, -1, 0)
 	src, _ := cmRender(t, at, -1, style)
 	if nondet.Bool("layout") {
